@@ -88,8 +88,43 @@ def _key_order_cases(rng):
         yield ("generate", p)
 
 
+def _several_reset_runs_cases():
+    """one partition whose subexperiments contain SEVERAL separate runs of back-to-back resets (two or three places where a wire is reset twice
+    in a row, a triple reset, a doubled reset on each of two wires): written by the user (re-initialisation of a used wire) or arising from qubit
+    re-use (a Move back onto the wire a Move has just left), next to an ordinary gate cut / the Moves' wire cuts.  Whatever the reset removals
+    do with these runs, every other operation of the subcircuit and of the chosen maps must still be there, on its wire, in order."""
+    def g(name, qs, *params):
+        return {"name": name, "qubits": list(qs), **({"params": list(params)} if params else {})}
+    r = lambda q: {"name": "reset", "qubits": [q]}   # noqa: E731
+    fam = [
+        # a doubled reset on each of the two wires of partition A, then gates on both; cut: cx(0,2)
+        (3, [g("h", [0]), g("h", [1]), r(0), r(0), g("ry", [0], 0.4), r(1), r(1), g("ry", [1], 0.7), g("cx", [0, 2]), g("cx", [0, 1]), g("h", [2])],
+         [0, 0, 1], ["ZZZ", "IZI", "IIX"], "dict", None),
+        (3, [g("h", [0]), g("h", [1]), r(0), r(0), g("ry", [0], 0.4), r(1), r(1), g("ry", [1], 0.7), g("cx", [0, 2]), g("cx", [0, 1]), g("h", [2])],
+         [0, 0, 1], ["ZZZ", "IZI", "IIX"], "single", 5),
+        # two doubled resets one after the other on the SAME wire, the cut gate directly behind the second one
+        (2, [g("h", [0]), g("ry", [1], 0.8), r(0), r(0), g("ry", [0], 0.5), g("rx", [0], 0.3), r(0), r(0), g("rzz", [0, 1], 0.9), g("ry", [0], 1.2),
+             g("rx", [1], 0.2)], [0, 1], ["ZZ", "XI", "IY"], "dict", None),
+        # a triple reset (two removals at neighbouring positions) and a doubled reset on another wire; finite budget
+        (3, [g("h", [0]), g("ry", [1], 0.6), g("cx", [0, 1]), r(1), r(1), r(1), g("ry", [1], 0.9), g("cz", [1, 2]), r(0), r(0), g("h", [0]),
+             g("cx", [0, 1]), g("ry", [2], 0.3)], [0, 0, 1], ["ZZI", "XZZ", "IYX"], "dict", 9),
+        # three runs in one partition, unseparated call form
+        (3, [g("h", [0]), g("h", [1]), g("cx", [0, 1]), r(0), r(0), g("ry", [0], 0.4), r(1), r(1), g("ry", [1], 0.7), g("crx", [1, 2], 1.1),
+             r(0), r(0), g("rx", [0], 0.6), g("cx", [0, 1]), g("ry", [2], 0.5)], [0, 0, 1], ["ZZZ", "IXI", "YII"], "single", None),
+        # qubit re-use: Move 1->2, work there, Move 2->1 back onto the wire just left (reset, reset), and wire 0 re-initialised by hand as well
+        (3, [g("h", [0]), g("ry", [1], 0.5), g("cx", [0, 1]), g("move", [1, 2]), g("ry", [2], 0.3), g("move", [2, 1]), r(0), r(0), g("ry", [0], 0.6),
+             g("cx", [0, 1])], [0, 0, 1], ["ZZI", "IXI"], "dict", None),
+        (3, [g("h", [0]), g("ry", [1], 0.5), g("cx", [0, 1]), g("move", [1, 2]), g("ry", [2], 0.3), g("move", [2, 1]), r(0), r(0), g("ry", [0], 0.6),
+             g("cx", [0, 1])], [0, 0, 1], ["ZZI", "IXI"], "dict", 25),
+    ]
+    for k, (nq, instrs, labels, obs, form, n_) in enumerate(fam):
+        yield ("generate", {"nq": nq, "qregs": [nq], "instrs": instrs, "labels": labels, "pool_idx": [0, 1], "obs": [{"l": l, "p": 0} for l in obs],
+                            "idle": [], "part": labels, "form": form, "N": n_, "seed": 51600 + k, "always_oracle": True})
+
+
 def cases(rng, tier):
     N = 100 if tier == "quick" else 800
+    yield from _several_reset_runs_cases()
     yield from _key_order_cases(rng)
     for _ in range(3 if tier == "quick" else 20):
         yield ("generate", _small_angle_case(rng))
@@ -361,6 +396,130 @@ def _same_mapping_reference(payload, exps, coeffs, error=None):
     return None
 
 
+def _wire_sequences(nq, items):
+    per = {q: [] for q in range(nq)}
+    for it in items:
+        for q in it[2]:
+            per[q].append(it)
+    return per
+
+
+def _substitution_mismatch(sub, key_of, key, c):
+    """None when subexperiment `c` is, wire by wire, the subcircuit `sub` with every cut placeholder replaced by the operations of the map that
+    the joint map `key` selects for it (mid-circuit measurements of the maps going to the `qpd_measurements` register in circuit order), followed
+    only by basis rotations / observable measurements - where reset instructions of that substituted circuit may be missing (the documented
+    reset removals, C19) but nothing else may be missing, added, re-parametrised or moved along a wire.  Otherwise a description."""
+    ref, nmeas, n2 = [], 0, 0
+    for inst in sub.data:
+        op = inst.operation
+        qs = tuple(sub.find_bit(q).index for q in inst.qubits)
+        if op.name in ("qpd_1q", "qpd_2q"):
+            sides = op.basis.maps[key[key_of(op, n2)]]
+            n2 += op.name == "qpd_2q"
+            halves = [(op.qubit_id, qs[0])] if op.name == "qpd_1q" else [(0, qs[0]), (1, qs[1])]
+            for side, q in halves:
+                for o in sides[side]:
+                    if o.name == "qpd_measure":
+                        ref.append(("measure", (), (q,), (("qpd_measurements", nmeas),)))
+                        nmeas += 1
+                    else:
+                        ref.append((o.name, tuple(canon.canon_param(p) for p in o.params), (q,), ()))
+        else:
+            ref.append((op.name, tuple(canon.canon_param(p) for p in op.params), qs, ()))
+    got = []
+    for inst in c.data:
+        cl = []
+        for b in inst.clbits:
+            loc = c.find_bit(b).registers
+            cl.append((loc[0][0].name, loc[0][1]) if loc else ("", c.find_bit(b).index))
+        got.append((inst.operation.name, tuple(canon.canon_param(p) for p in inst.operation.params),
+                    tuple(c.find_bit(q).index for q in inst.qubits), tuple(cl)))
+    if c.num_qubits != sub.num_qubits:
+        return f"{c.num_qubits} qubits instead of {sub.num_qubits}"
+    rw, gw = _wire_sequences(sub.num_qubits, ref), _wire_sequences(sub.num_qubits, got)
+    show = lambda it: it[0] + (str(list(it[2])) if len(it[2]) > 1 else "")   # noqa: E731
+    for q in range(sub.num_qubits):
+        r, g = rw[q], gw[q]
+        i = j = 0
+        while i < len(r):
+            if j < len(g) and r[i] == g[j]:
+                i += 1
+                j += 1
+            elif r[i][0] == "reset":
+                i += 1      # a removed reset
+            else:
+                return (f"wire {q}: operation {show(r[i])} (position {i} of the substituted subcircuit's wire {[show(x) for x in r]}) is missing "
+                        f"or altered; the subexperiment's wire is {[show(x) for x in g]}")
+        rest = g[j:]
+        if len(rest) > 2 or any(not (x[0] in ("h", "sx") or (x[0] == "measure" and x[3] and x[3][0][0] == "observable_measurements")) for x in rest):
+            return (f"wire {q}: after the substituted subcircuit's operations {[show(x) for x in r]} the subexperiment carries {[show(x) for x in rest]}, "
+                    f"which is not a basis rotation and observable measurement")
+    return None
+
+
+def _oracle_substitution(circuits, observables, exps, coeffs, captured):
+    """every circuit is the partition's subcircuit with every cut placeholder replaced by the chosen map's operations (sample-major, then groups)"""
+    from qiskit_addon_cutting.utils.observable_grouping import ObservableCollection
+    ws = captured.get("weights", [])
+    if len(ws) != len(coeffs):
+        return None   # reported by the counting clause
+    separated = isinstance(circuits, dict)
+    subs = circuits if separated else {"A": circuits}
+    cut_ids, n2 = set(), 0
+    for lab, sub in subs.items():
+        for inst in sub.data:
+            nm = inst.operation.name
+            if nm == "qpd_1q":
+                if not separated:
+                    return None
+                try:
+                    cut_ids.add(int(inst.operation.label.rsplit("_", 1)[1]))
+                except Exception:
+                    return None
+            elif nm == "qpd_2q":
+                if separated:
+                    return None   # not produced by partition_problem; out of this clause's reach
+                n2 += 1
+    pos = {d: k for k, d in enumerate(sorted(cut_ids))}
+    ncuts = len(pos) if separated else n2
+    if any(len(w["key"]) != ncuts for w in ws):
+        return None
+
+    def key_of(op, nth_2q):
+        # separated: the cut id is the `_<id>` suffix of the placeholder's label; unseparated: the cut gates count in circuit order
+        return pos[int(op.label.rsplit("_", 1)[1])] if separated else nth_2q
+
+    # sample `rank` belongs to the joint map of rank `rank` by weight; maps of equal weight may be listed in any order
+    order = sorted(range(len(ws)), key=lambda i: -Fraction(ws[i]["w"]))
+    it = exps.items() if isinstance(exps, dict) else [("A", exps)]
+    it = [(lab, cs) for lab, cs in it]
+    for rank, i in enumerate(order):
+        cands = [i] + [j for j in order if j != i and Fraction(ws[j]["w"]) == Fraction(ws[i]["w"])]
+        first = None
+        for j in cands:
+            key, bad = ws[j]["key"], None
+            for lab, cs in it:
+                so = observables[lab] if separated else observables
+                G = len(ObservableCollection(so).groups)
+                if len(cs) != len(coeffs) * G:
+                    return None   # reported by the counting clause
+                for g_i in range(G):
+                    why = _substitution_mismatch(subs[lab], key_of, key, cs[rank * G + g_i])
+                    if why:
+                        bad = (f"partition {lab!r}, sample {rank} (joint map {list(key)}), group {g_i}: the subexperiment is not the subcircuit with the "
+                               f"chosen map's operations in place of the cut placeholders: {why}")
+                        break
+                if bad:
+                    break
+            if bad is None:
+                first = None
+                break
+            first = first or bad
+        if first:
+            return first
+    return None
+
+
 def _oracle_contract(kind, payload):
     reordered = payload.get("obs_order") or payload.get("circ_order")
     try:
@@ -455,6 +614,9 @@ def _oracle_contract(kind, payload):
                 return f"placeholder left in a subexperiment of partition {lab!r}"
             if [r.name for r in c.cregs][-2:] != ["observable_measurements", "qpd_measurements"]:
                 return f"classical registers end with {[r.name for r in c.cregs][-2:]}"
+    why = _oracle_substitution(circuits, observables, exps, coeffs, captured)
+    if why:
+        return why
     if reordered:
         return _same_mapping_reference(payload, exps, coeffs)
     return None
